@@ -54,8 +54,8 @@ def to_script(name, hist, kinds):
 
 
 RQOS = {"Q_12": [1, 2], "Q_22": [2, 2], "Q_212": [2, 1, 2], "Q_2211": [2, 2, 1, 1], "Q_122": [1, 2, 2]}
-RCFGS = {"quick": ["MCRecv.gen.cfg", "MCRecv.gen.Q_122.cfg", "MCRecv.gen.Q_22.cfg"],
-         "thorough": ["MCRecv.gen.cfg", "MCRecv.gen.Q_122.cfg", "MCRecv.gen.Q_22.cfg", "MCRecv.gen.Q_2211.cfg"]}
+RCFGS = {"quick": ["MCRecv.gen.cfg", "MCRecv.gen.Q_122.cfg", "MCRecv.gen.Q_22.cfg", "MCRecv.gen.silent.cfg"],
+         "thorough": ["MCRecv.gen.cfg", "MCRecv.gen.Q_122.cfg", "MCRecv.gen.Q_22.cfg", "MCRecv.gen.silent.cfg", "MCRecv.gen.Q_2211.cfg"]}
 
 
 def to_script_recv(name, hist, qos):
@@ -70,6 +70,7 @@ def to_script_recv(name, hist, qos):
         # later wdeliver / wend of the model may find no write left: those two are optional steps)
         elif o == "wdeliver": steps.append(dict(op="wdeliver", opt=1))
         elif o == "wend": steps.append(dict(op="wend", ec="ok", opt=1))
+        elif o == "wlost": steps.append(dict(op="wend", ec="ok", drop=1, opt=1))     # reported written, lost with the connection
         elif o == "fault": steps.append(dict(op="fault", ec="reset"))
         elif o == "reconnect":
             # the pause after the single broker failed, the TCP connect, then the CONNECT write goes through
